@@ -45,6 +45,64 @@ if not jeq(J(b), jb): return "later-fill-of-a-leaks-into-b"
     )
 
 
+def iadd_reloaded_left(tree, timeout=60, fixy=True):
+    pb, preb, codeb = data_params(tree, 1, mode="real", prefix="b", fix_leaf_y=fixy)
+    body = codeb + """
+with NT():
+    e1 = Factory.fromJson(J(MK())); e2 = Factory.fromJson(J(MK())); empty_doc = J(MK())
+b, ref = fresh(MK, 2)
+for d in bdata: b.fill(d)
+jb = J(b)
+e1 += b
+if not jeq(J(e1), J(ref + b)): return "iadd-into-reloaded-empty-differs-from-add"
+if not jeq(J(b), jb): return "right-operand-changed"
+if not jeq(J(e2), empty_doc): return "in-place-merge-into-one-reloaded-container-changed-another-reloaded-container"
+with NT():
+    e3 = Factory.fromJson(empty_doc)
+    later_empty = jeq(J(e3), empty_doc)
+if not later_empty: return "a-later-reload-of-an-empty-document-is-not-empty"
+e1 += b
+if not jeq(J(e1), J(ref + b + b)): return "second-iadd-into-reloaded-differs"
+"""
+    return Harness(f"C07/iadd-reloaded-left/{tree.name}", pb, " and ".join(preb), body, timeout=timeout, setup=_setup(tree), tree=tree.expr,
+                   bounds=bounds_text(tree, 1, left_operand="empty container reloaded from JSON (two independent reloads + a later one)"))
+
+
+def lookalike_history(tree, timeout=60, fixy=True):
+    """history: the same operations have already been applied, in this process, to a look-alike tree whose quantity functions
+    differ only in which field they read (same code shape, unnamed lambdas)"""
+    import re
+    swapped = re.sub(r"\bqx\b", "QX2", tree.expr)
+    swapped = re.sub(r"\bqy\b", "QY2", swapped)
+    pa, prea, codea = data_params(tree, 1, mode="real", prefix="a", fix_leaf_y=fixy)
+    pb, preb, codeb = data_params(tree, 1, mode="real", prefix="b", fix_leaf_y=fixy)
+    pe, pree, codee = data_params(tree, 1, mode="real", prefix="e", fix_leaf_y=fixy)
+    body = codea + codeb + codee + """
+with NT():   # the look-alike's history (concrete)
+    u, v = MK2(), MK2()
+    u.fill((0.25, 1.25, "a", 1.0)); v.fill((1.5, -0.5, "b", 2.5))
+    u += v
+    u.fill((1.5, 0.5, "b", 2.5)); w_ = u + v; w_.fill((0.25, 0.5, "a", 1.0))
+a, a0, b = fresh(MK, 3)
+for d in adata: a.fill(d); a0.fill(d)
+for d in bdata: b.fill(d)
+a += b
+s = a0 + b
+if not jeq(J(a), J(s)): return "iadd-differs-from-add"
+for d in (bdata[0], edata[0], adata[0]):
+    a.fill(d); s.fill(d)
+    ref = MK()
+    ref._checkForCrossReferences()
+if not jeq(J(a), J(s)): return "continuation-after-iadd-differs-from-continuation-after-add"
+r = fresh(MK, 1)[0]
+for d in (adata[0], bdata[0], bdata[0], edata[0], adata[0]): r.fill(d)
+if not jeq(J(a), J(r)): return "continuation-after-iadd-differs-from-filling-everything"
+"""
+    return Harness(f"C07/lookalike-history/{tree.name}", pa + pb + pe, " and ".join(prea + preb + pree), body, timeout=timeout,
+                   setup=_setup(tree) + f"QX2 = lambda d: d[1]\nQY2 = lambda d: d[0]\nMK2 = lambda: {swapped}\n", tree=tree.expr,
+                   bounds=bounds_text(tree, 3, history="a look-alike tree (fields swapped) went through fill, +=, +, fill before"))
+
+
 def harnesses(tier):
     out = []
     for t in cat.unit() + cat.extra_unit():
@@ -53,6 +111,11 @@ def harnesses(tier):
             out.append(iadd(t, 1, 1, special=True, timeout=90))
     for t in cat.extra_unit():
         out.append(iadd(t, 1, 1, timeout=90))
+    leafy = cat.slot(children=["Sum", "Bag", "Minimize"], parents=["Categorize", "SparselyBin", "Label", "Bin"])
+    for t in cat.unit() + cat.extra_unit() + cat.deep()[:5] + leafy:
+        out.append(iadd_reloaded_left(t))
+        if t.uses_x or t.uses_y:
+            out.append(lookalike_history(t))
     for t in cat.unit():
         out.append(iadd(t, 1, 1))
         out.append(iadd(t, 0, 1, timeout=40))
